@@ -156,6 +156,7 @@ def scen_free(w, N=4, mode="lossless"):
 PROFILES = [
     # (indent, lineno, subcode, checksum, comment)
     (0, 0, 0, 0, 0), (0, 1, 0, 1, 0), (1, 0, 1, 0, 1), (0, 0, 0, 1, 1), (1, 1, 1, 1, 1), (0, 0, 1, 0, 0),
+    (0, 1, 0, 2, 0),        # checksum value 2: "* d" with a blank after the asterisk
 ]
 
 
@@ -172,7 +173,9 @@ def template_line(w, ln, free, alpha, profile, kind, eol):
         t += [".", w.char("l%d_s" % ln, [(48, 57)])]
     for i in range(free):
         t.append(w.char("l%d_f%d" % (ln, i), alpha))
-    if checksum:
+    if checksum == 2:
+        t += ["*", " ", w.char("l%d_k" % ln, [(48, 57)])]
+    elif checksum:
         t += ["*", w.char("l%d_k" % ln, [(48, 57)])]
     if comment:
         t += [" ;", w.char("l%d_m" % ln, alpha)]
